@@ -244,6 +244,19 @@ def replay_k(prop, o, res):
 
 # ------------------------------------------------------------------------------------------------
 
+def _mp_worker(arg):
+    prop, o = arg
+    import engine_m
+    lines = []
+    try:
+        res = engine_m.run_obligation(prop, o, lines.append)
+    except Exception as e:  # never lose an obligation silently
+        res = dict(o, status="ERROR", error="%s: %s" % (type(e).__name__, str(e)[:400]), violations=[], queries=0, solver_s=0.0)
+        lines.append("[P] %-44s ERROR %s" % (o.get("name"), res["error"]))
+    res.pop("goto", None)
+    return res, lines
+
+
 def main():
     ap = argparse.ArgumentParser()
     ap.add_argument("prop")
@@ -272,10 +285,27 @@ def main():
     results = []
     if other:
         import engine_m
+        others = []
         for o in other:
             o = dict(o)
             o.setdefault("harness", o["name"])
-            results.append(engine_m.run_obligation(prop, o, log))
+            others.append(o)
+        nproc = min(len(others), max(1, min(a.jobs, 8)))
+        if nproc <= 1 or os.environ.get("VERIF_SERIAL"):
+            for o in others:
+                results.append(engine_m.run_obligation(prop, o, log))
+        else:
+            # engine M/P obligations are independent: run them in forked workers. Everything that is built
+            # once per run (MIR dumps of /repo, the replay binaries) is produced here first and inherited.
+            engine_m.prewarm(log, need_scenarios=any(o["engine"] == "P" for o in others),
+                             need_kernels=any(o["engine"] == "M" for o in others))
+            import multiprocessing as mp
+            ctx = mp.get_context("fork")
+            with ctx.Pool(nproc) as pool:
+                for res, lines in pool.imap(_mp_worker, [(prop, o) for o in others]):
+                    for ln in lines:
+                        log(ln)
+                    results.append(res)
     if k_obls:
         results += run_k_obligations(prop, k_obls, tier, a.jobs)
 
